@@ -107,6 +107,22 @@ def main():
                "listed finding (8.3) and are printed as KNOWN-FINDING lines. The thorough tiers run the same generators with "
                "10-20x the cases, more valuations / histories / schedules and the large program sizes.")
     out.append("")
+    th = sorted(glob.glob(os.path.join(V, "evidence", "thorough", "C*.json")))
+    if th:
+        out.append("Thorough tier on the final tree (VERIF_SEED=0, one run per property, copies of the evidence files in "
+                   "`evidence/thorough/`):")
+        out.append("")
+        out.append("| id | cases | held | listed | vacuous / inconclusive | skipped (budget) | evaluations | distinct non-trivial | wall s | verdict |")
+        out.append("|---|---|---|---|---|---|---|---|---|---|")
+        for p in th:
+            e = json.load(open(p))
+            c = e.get("coverage", {})
+            cs = c.get("cases", {})
+            out.append("| %s | %s | %s | %s | %s / %s | %s | %s | %s | %s | %s |" % (
+                e["property_id"], cs.get("cases"), cs.get("held", 0), cs.get("known", 0), cs.get("vacuous", 0),
+                cs.get("inconclusive", 0), cs.get("skipped", 0), c.get("evaluations"), c.get("distinct_nontrivial"),
+                e.get("wall_s", ""), "held" if not e.get("violations") else "%d violation(s)" % len(e["violations"])))
+        out.append("")
     # 8.2
     fixed = kf.get("fixed", [])
     out.append("### 8.2 Genuine defects repaired (%d `fix:` commits in /repo, %d records)" % (fix_count() or 0, len(fixed)))
@@ -152,17 +168,40 @@ def main():
     # 8.4
     out.append("### 8.4 Seeded changes and the checks that catch them")
     out.append("")
-    out.append("| id | property | the change | needs, to manifest | caught by | first run |")
-    out.append("|---|---|---|---|---|---|")
+    out.append("Four batches of sub-agents (a, b: all 20 properties; c, d: 10 each) were given only a property's text and a "
+               "scratch worktree. `first run` is what the checks did when the change was first applied; `final tree` is "
+               "`tools/seeded_regress.py` re-applying the stored patch to a scratch worktree of the last /repo HEAD and "
+               "running the quick tier of the named checks (exit code / number of VIOLATION lines).")
+    out.append("")
+    out.append("| id | property | the change | needs, to manifest | caught by | first run | final tree |")
+    out.append("|---|---|---|---|---|---|---|")
+    nfirst = nall = 0
     for p in sorted(glob.glob(os.path.join(V, "seeded", "*", "meta.json"))):
         m = json.load(open(p))
-        first = "caught" if "missed at first" not in m["result"] else "missed; workload widened, then caught"
-        out.append("| %s | %s | %s | %s | %s | %s |" % (m["id"], m["property"], m["change"], m["needs_to_manifest"],
-                                                       ", ".join(m["caught_by"]) or "-", first))
+        if m.get("manifests_on_head") is False:
+            first = "no longer breaks the property on the final tree (see `meta.json`)"
+        elif "missed at first" in m["result"]:
+            first = "missed; workload widened, then caught"
+        else:
+            first = "caught"
+            nfirst += 1
+        nall += 1
+        last = "-"
+        lp = os.path.join(os.path.dirname(p), "last_run.json")
+        if os.path.exists(lp):
+            lr = json.load(open(lp))
+            if lr.get("applies") is False:
+                last = "patch no longer applies"
+            else:
+                last = ", ".join("%s %d/%d" % (c, v["exit"], v["violations"]) for c, v in lr.get("checks", {}).items()) or "-"
+        out.append("| %s | %s | %s | %s | %s | %s | %s |" % (m["id"], m["property"], m["change"], m["needs_to_manifest"],
+                                                           ", ".join(m["caught_by"]) or "-", first, last))
     out.append("")
-    out.append("Full results (violation counts, the deciding oracle clause) are in `seeded/<id>/meta.json`. All changes pass the "
-               "repository's unedited suite (confirmed per change in `confirm.json`). Replay: `tools/try_mutant.py "
-               "seeded/<id>/patch.diff <checks>`.")
+    out.append("%d of %d changes were caught the first time they were applied; every other one exposed a construct the "
+               "workload did not contain and was caught after the stratum was added (the widened workload is what the "
+               "table's `final tree` column runs). Full results (violation counts, the deciding oracle clause) are in "
+               "`seeded/<id>/meta.json`. All changes pass the repository's unedited suite (confirmed per change in "
+               "`confirm.json`). Replay: `tools/try_mutant.py seeded/<id>/patch.diff <checks>`." % (nfirst, nall))
     out.append("")
     # 8.5
     out.append("### 8.5 False alarms that were corrected in the machinery")
@@ -189,7 +228,7 @@ def main():
         "* **Paths the generators never drive** are not covered: entity kinds beyond the ~15 prototypes used, entity "
         "property reads, `.type` on parameters, very large programs (> ~400 entities), programs mixing every feature at "
         "once. The seeded campaign shows the typical failure mode of this family: a check is blind to a construct its "
-        "workload does not contain (10 of the first 20 seeded changes were missed until a stratum was added), never to a "
+        "workload does not contain (about half of the seeded changes of every batch were missed until a stratum was added, see 8.4), never to a "
         "construct it contains.\n"
         "* **Listed findings mask their own neighbourhood**: a different defect that only shows inside a K1-affected, "
         "three-colour, skewed-loop or big-pole case is attributed to the listed finding unless it changes the attribution "
